@@ -11,17 +11,9 @@
      C12_drr_back_to_back                                                                  -> C12_ex_drr_back_to_back
    Unconditional: none. *)
 From Coq Require Import ZArith QArith List Bool.
-From ONL Require Import Elem.Packet Elem.StoreQ Elem.DRR Elem.DRRInv Elem.DRRProofs Elem.DRRLive Elem.DRRExample.
+From ONL Require Import Elem.Packet Elem.StoreQ Elem.DRR Elem.DRRInv Elem.DRRProofs Elem.DRRLive Elem.DRRExample Elem.DRRWitness.
 From ONL Require Import Props.C12_DRR.
 Import ListNotations.
-
-Definition dex_state (n : nat) : drr := match drr_run dex_cfg (drr0 0) (firstn n dex_acts) with Some (d, _) => d | None => drr0 0 end.
-Definition dex_trace (n : nat) : list dtev := match drr_run dex_cfg (drr0 0) (firstn n dex_acts) with Some (_, tr) => tr | None => [] end.
-Definition dex_u0 : pkt := mkp 0 1 0 2000 0.
-Definition dex_u1 : pkt := mkp 1 2 1 1000 0.
-Definition dex_u2 : pkt := mkp 2 3 7 1000 0.
-Definition dex_u3 : pkt := mkp 3 4 0 500 0.
-Definition dex_u4 : pkt := mkp 4 5 1 256 4.
 
 (* State W = after 31 actions (instant 4): u3 (class 0) is in transmission until 1125/256, u4 (flow 1, class 1) has just
    arrived and waits; u1 u2 u0 have left.  Final state: all 39 actions, drained. *)
